@@ -791,6 +791,10 @@ def judge_history(hist, obs):
                 return ("instance-shared", "%s: instance #%d belongs to %r" % (where, serial, owner[serial]))
             owner[serial] = slot
             seen.add(serial)
+            if created and creator == "callable" and outcome[0] == "wt":
+                return ("creator-foreign-object-served",
+                        "%s: the instance creator handed back an object that is not an instance of the registered class and the "
+                        "call was served by it (no 'different type' TypeError)" % where)
             if created and outcome[0] in FAILING:
                 return ("creation-error-hidden",
                         "%s: the creation attempt of this call fails (outcome %r) but the caller was served by a new instance; "
